@@ -22,15 +22,25 @@ fn probe() -> Req {
 fn list(v: u64) -> Vec<serde_json::Value> {
     let p = if v % 2 == 0 { "request.listener == \"probe\"" } else { "request.listener == \"nobody\"" };
     let mut l = vec![serde_json::json!({"filter": p, "target": format!("a{}", v % K)})];
-    for i in 0..12 {
+    // the lists differ in length (14, 12, .. 6 rules), and every fourth one has no catch-all at its end: whatever an
+    // implementation keeps of a longer predecessor then decides the probe, which no version does
+    for i in 0..(12 - 2 * (v % 5)) {
         l.push(serde_json::json!({"filter": format!("request.target.port == {}", 1000 + i), "target": "pad"}));
     }
-    l.push(serde_json::json!({"target": format!("z{}", v % K)}));
+    if v % 4 != 3 {
+        l.push(serde_json::json!({"target": format!("z{}", v % K)}));
+    }
     l
 }
 
+/// "" = the probe matches no rule of that version: refused, no connector
 fn decision(v: u64) -> String {
-    if v % 2 == 0 { format!("a{}", v % K) } else { format!("z{}", v % K) }
+    if v % 2 == 0 { format!("a{}", v % K) } else if v % 4 == 3 { String::new() } else { format!("z{}", v % K) }
+}
+
+fn expected_used(v: u64) -> Vec<String> {
+    let d = decision(v);
+    if d.is_empty() { vec![] } else { vec![d] }
 }
 
 fn bad_list(r: &mut Rng, v: u64) -> (Vec<serde_json::Value>, &'static str) {
@@ -89,7 +99,7 @@ pub async fn run(args: &Args) {
         let id = ctx.read().await.props().id;
         crate::process_request(ctx, state.clone()).await;
         let used: Vec<String> = recs.iter().filter(|r| r.take().contains(&id)).map(|r| r.name.clone()).collect();
-        if strip(&before) != strip(&after) || used != vec![decision(cur)] {
+        if strip(&before) != strip(&after) || used != expected_used(cur) {
             out.violation(
                 format!("rejected replacement ({}) changed the rule list or a later decision", kind),
                 serde_json::json!({"rejected_rules": bad, "rules_before": strip(&before), "rules_after": strip(&after), "decision_after": used, "decision_of_old_list": decision(cur)}),
@@ -108,8 +118,17 @@ pub async fn run(args: &Args) {
             let id = ctx.read().await.props().id;
             crate::process_request(ctx, state.clone()).await;
             let used: Vec<String> = recs.iter().filter(|r| r.take().contains(&id)).map(|r| r.name.clone()).collect();
-            if used != vec![decision(cur)] {
+            if used != expected_used(cur) {
                 out.violation("request begun after a successful replacement is decided by an older list".into(), serde_json::json!({"version": cur, "decision": used, "expected": decision(cur)}));
+            }
+            // the installed list is the posted one, rule for rule
+            {
+                let strip_v = |v: &serde_json::Value| -> String { serde_json::to_string(&v.as_array().unwrap().iter().map(|r| serde_json::json!([r["target"], r.get("filter").cloned().unwrap_or(serde_json::Value::Null)])).collect::<Vec<_>>()).unwrap() };
+                let installed: serde_json::Value = serde_json::from_str(&serde_json::to_string(&*state.rules().await).unwrap()).unwrap();
+                let posted = serde_json::Value::Array(list(cur));
+                if strip_v(&installed) != strip_v(&posted) {
+                    out.violation("rule list in force after a successful replacement is not the posted one".into(), serde_json::json!({"posted_rules": posted.as_array().unwrap().len(), "installed_rules": installed.as_array().unwrap().len()}));
+                }
             }
             // GET -> POST of the same document leaves behaviour unchanged
             let doc = serde_json::to_string(&*state.rules().await).unwrap();
@@ -123,7 +142,7 @@ pub async fn run(args: &Args) {
                     let id = ctx.read().await.props().id;
                     crate::process_request(ctx, state.clone()).await;
                     let used: Vec<String> = recs.iter().filter(|r| r.take().contains(&id)).map(|r| r.name.clone()).collect();
-                    if used != vec![decision(cur)] {
+                    if used != expected_used(cur) {
                         out.violation("read-then-post of the unchanged rules changed a decision".into(), serde_json::json!({"decision": used, "expected": decision(cur)}));
                     }
                 }
@@ -228,7 +247,8 @@ pub async fn run(args: &Args) {
             out.nontrivial(&(cands.clone(), got.clone()));
         }
         let legal: Vec<String> = cands.iter().map(|v| decision(*v)).collect();
-        if got.len() != 1 || !legal.contains(&got[0]) {
+        let got_d = if got.is_empty() { String::new() } else { got[0].clone() };
+        if got.len() > 1 || !legal.contains(&got_d) {
             torn += 1;
             out.violation(
                 "request decided by no single rule list that was current during it (torn or stale rules)".into(),
